@@ -1540,10 +1540,15 @@ fn binary_search_by_msg_index(
             .all_msgs
             .binary_search_by(|m| m.index.cmp(&wanted_msg_idx));
         if let Ok(all_msgs_idx) = all_msgs_idx {
-            let filtered_msg_index = stream
-                .filtered_msgs
-                .binary_search(&all_msgs_idx)
-                .unwrap_or_else(|e| e);
+            let filtered_msg_index = if stream.filters_active {
+                stream
+                    .filtered_msgs
+                    .binary_search(&all_msgs_idx)
+                    .unwrap_or_else(|e| e)
+            } else {
+                // !filters_active: filtered_msgs is not filled, the stream msgs are all msgs
+                all_msgs_idx
+            };
             Ok(filtered_msg_index)
         } else {
             Err(format!(
